@@ -857,6 +857,15 @@ class TrajectoryStore:
         if not self.indexable:
             raise RuntimeError('Cannot lookup by flight_id in non-indexable store')
 
+        # An in-memory store has no index group (that only exists in the NetCDF
+        # file created when the store is saved): all of its trajectories are
+        # in the cache, so search those directly.
+        if not self.nc_linked:
+            for traj in self._trajectories.values():
+                if traj.flight_id == flight_id:
+                    return traj
+            return None
+
         # Reindex lazily if needed.
         if self.index_stale:
             self._reindex()
@@ -1529,6 +1538,11 @@ class TrajectoryStore:
         # NOTE: Takes about 1.5s on a store with 1 million trajectories.
 
         if not self.indexable or not self.index_stale:
+            return
+
+        # An in-memory store has no NetCDF files to index yet. The index stays
+        # marked as stale and is written once the store has been saved.
+        if not self.nc_linked:
             return
 
         # Get the NetCDF4 groups for the base field set.
